@@ -346,6 +346,7 @@ func runStoreTrace(seed uint64, dir string, steps int, block bool, pg bool) (tr 
 				release()
 			}
 			release = nil
+			ob.quiesce()
 			tr.Stats["commit:deadline"]++
 		} else {
 			if blocked {
